@@ -3,7 +3,16 @@
 Spawned functions run in real OS threads, but exactly one thread runs at a time; control changes hands
 only at the synchronisation points of the models (lock acquire, Condition.wait, thread end), and *which*
 runnable thread continues there is a `choice()` - so the explorer enumerates every schedule at lock
-granularity.  A timed wait only times out when no other thread can make progress."""
+granularity.  A timed wait only times out when no other thread can make progress.
+
+With `preempt=k` the scheduler additionally explores *preemptions between synchronisation points*: every
+source line of a canopen function executed by any thread is a possible preemption point (sys.settrace 'line'
+events of code objects under $VERIF_REPO/canopen); at most k preemptions per schedule are taken (context
+bound, as in CHESS), every placement of them is explored.  Preemption inside a line (between two bytecodes of
+one statement) stays outside.  Preemption points are named by function and line so that a symbolic path and
+its native replay agree on them even though the loader rewrites dict displays."""
+import os
+import sys
 import threading
 
 from . import api
@@ -29,13 +38,79 @@ class _T:
 
 
 class Scheduler:
-    def __init__(self):
+    def __init__(self, preempt=0, only=None, delay=False, lines=True):
         self.main = _T("main")
         self.threads = [self.main]
         self.current = self.main
         self.dead = False
         self.switches = 0
+        self.preempt_left = preempt
+        self.main.thread = threading.current_thread()
+        self.preempt_only = only            # optional set of function names that may be preempted
+        self.preempt_points = 0
+        self.delay = delay                  # delay-bounded mode: a default schedule plus at most `preempt` deviations
+        self._in_sched = False
+        self._root = os.path.join(os.path.realpath(os.environ.get("VERIF_REPO", "/repo")), "canopen") + os.sep
         ENV.sched = self
+        self.lines = lines
+        if preempt and lines:
+            self._old_trace = sys.gettrace()
+            sys.settrace(self._trace)
+
+    # ---- preemption between synchronisation points ---------------------------------------------
+    def _trace(self, frame, event, arg):
+        if self.dead or self.preempt_left <= 0:
+            return None
+        co = frame.f_code
+        fn = co.co_filename
+        if not (fn.startswith(self._root) or os.path.realpath(fn).startswith(self._root)):
+            return None
+        if self.preempt_only is not None and co.co_name not in self.preempt_only:
+            return None
+        return self._line
+
+    def _line(self, frame, event, arg):
+        if event != "line" or self.dead or self.preempt_left <= 0 or self._in_sched:
+            return self._line
+        cur = self.current
+        if threading.current_thread() is not getattr(cur, "thread", None):
+            return self._line
+        others = [t for t in self._runnable() if t is not cur]
+        if not others or cur.state != "runnable":
+            return self._line
+        self.preempt_points += 1
+        co = frame.f_code
+        label = "pre:%s:%s:%d" % (cur.name, co.co_name, frame.f_lineno)
+        self._in_sched = True
+        try:
+            if self.delay:
+                nxt = self._deviate([cur] + self._rr(cur, others), label)
+                if nxt is cur:
+                    nxt = None
+            elif api.choice(2, label):
+                self.preempt_left -= 1
+                nxt = others[0] if len(others) == 1 else others[api.choice(len(others), "pre_to")]
+            else:
+                nxt = None
+        finally:
+            self._in_sched = False
+        if nxt is not None:
+            self._switch_to(nxt, cur)
+        return self._line
+
+    def _rr(self, cur, cands):
+        """candidates in round-robin order starting after cur"""
+        i = self.threads.index(cur)
+        order = self.threads[i + 1:] + self.threads[:i + 1]
+        return [t for t in order if t in cands]
+
+    def _deviate(self, ordered, label):
+        """delay-bounded choice: the first candidate is the default; every skip costs one unit of the budget"""
+        idx = 0
+        while self.preempt_left > 0 and idx < len(ordered) - 1 and api.choice(2, label):
+            idx += 1
+            self.preempt_left -= 1
+        return ordered[idx]
 
     # ---- thread management ----------------------------------------------------------------------
     def spawn(self, fn, name=None):
@@ -47,6 +122,8 @@ class Scheduler:
             try:
                 if self.dead:
                     return
+                if self.preempt_left > 0 and self.lines:
+                    sys.settrace(self._trace)
                 fn()
             except ThreadKill:
                 return
@@ -56,12 +133,27 @@ class Scheduler:
                 t.state = "done"
                 if not self.dead:
                     self._leave(t)
-        t.os = threading.Thread(target=body, daemon=True)
+        t.os = t.thread = threading.Thread(target=body, daemon=True)
         t.os.start()
         return t
 
     def _runnable(self):
+        for t in self.threads:
+            if t.state == "joining" and t.join_pred():
+                t.state = "runnable"
         return [t for t in self.threads if t.state == "runnable"]
+
+    def wait_until(self, pred):
+        """the calling thread sleeps until pred() holds (evaluated when other threads block or end)"""
+        cur = self.current
+        while not pred():
+            cur.state = "joining"
+            cur.join_pred = pred
+            self._block(cur)
+        cur.state = "runnable"
+
+    def done(self, prefix):
+        return all(t.state == "done" for t in self.threads if t.name.startswith(prefix))
 
     def _pick(self, exclude=None, label="sched"):
         cands = [t for t in self._runnable() if t is not exclude]
@@ -69,6 +161,8 @@ class Scheduler:
             return None
         if len(cands) == 1:
             return cands[0]
+        if self.delay:
+            return self._deviate(self._rr(self.current, cands), "dly:" + label)
         return cands[api.choice(len(cands), label)]
 
     def _switch_to(self, nxt, cur):
@@ -113,7 +207,12 @@ class Scheduler:
         cands = self._runnable()
         if len(cands) <= 1:
             return
-        nxt = cands[api.choice(len(cands), label)]
+        if self.delay:
+            if cur not in cands:
+                return
+            nxt = self._deviate([cur] + self._rr(cur, [t for t in cands if t is not cur]), "dly:%s:%s" % (cur.name, label))
+        else:
+            nxt = cands[api.choice(len(cands), label)]
         self._switch_to(nxt, cur)
 
     def _block(self, cur):
@@ -137,7 +236,12 @@ class Scheduler:
                 raise RuntimeError("scheduler: join does not terminate")
             others = [t for t in self._runnable() if t is not self.main]
             if others:
-                nxt = others[0] if len(others) == 1 else others[api.choice(len(others), "sched_join")]
+                if len(others) == 1:
+                    nxt = others[0]
+                elif self.delay:
+                    nxt = self._deviate(self._rr(cur, others), "dly:join")
+                else:
+                    nxt = others[api.choice(len(others), "sched_join")]
                 self._switch_to(nxt, cur)
             else:
                 t = self._fire_timeout(exclude=self.main)
@@ -148,6 +252,8 @@ class Scheduler:
 
     def shutdown(self):
         self.dead = True
+        if hasattr(self, "_old_trace"):
+            sys.settrace(self._old_trace)
         for t in self.threads:
             if t is not self.main and t.state != "done":
                 t.sem.release()
